@@ -26,6 +26,18 @@ def run(ctx):
     R.assumptions = ['map_err applies its closure exactly to the Err payload']
     R.info['configs'] = ['full']
 
+    # ------------------------------------------------------------------ end-of-stream is sticky: both endpoints keep their transport fused
+    # (a Stream may panic when polled again after Ready(None); both endpoints do poll again while requests are still in flight.  The rules below also
+    # recognise transport operations by this wrapper.)
+    fused = {}
+    for adt_name in ('client::RequestDispatch', 'server::BaseChannel'):
+        a_ = F.adt(adt_name)
+        fused[adt_name] = [x[0] for x in a_['variants'][0]['fields'] if x[1].split('<')[0].endswith('stream::Fuse')]
+        R.ob('C09.fused', (adt_name.split('::')[-1], 'transport is fused'), len(fused[adt_name]) == 1,
+             'the endpoint stores its transport as Fuse<T>: once the transport reported end-of-stream it is not polled again (a transport may panic if it is), and reads after the end keep returning None',
+             [], 'Fuse fields: %s' % fused[adt_name])
+    if not all(len(v) == 1 for v in fused.values()):
+        return
     # ------------------------------------------------------------------ transport call sites and their tags
     sites = []
     for f in F.fns.values():
@@ -213,7 +225,7 @@ def run(ctx):
     from engine.shape import STAR, poll_outcome, is_ready_ok
     from .shape_common import find_cell_accessors, run_jobs, server_chains, chain_name
     dpoll = client_dispatch_poll(F)
-    acc, fields = find_cell_accessors(F, P, 'client::RequestDispatch', lambda t: t.startswith('std::option::Option<'))
+    acc, fields = find_cell_accessors(F, P, 'client::RequestDispatch', lambda t: t.startswith('std::option::Option<') and 'ChannelError' in t)
     cells = [((sorted(fields)[0], 'None'),), ((sorted(fields)[0], ('Some', STAR)),)] if fields else [()]
     rp = S.requests_poll
     chains = [c for c in server_chains(F) if len(c) <= (2 if ctx.tier == 'quick' else 3)]
